@@ -3,6 +3,7 @@
 use vstd::prelude::*;
 verus! {
 //@@ INCLUDE lib/prelude.rs
+//@@ INCLUDE lib/shift_bv.rs
 //@@ INCLUDE lib/bits_lemmas.rs
 //@@ FN integer/bits/trailing_zeros_large.rs
 //@@ FN integer/bits/trailing_ones_large.rs
